@@ -23,6 +23,7 @@ type MemRWSC struct {
 	Writes      int
 	FailWriteAt int
 	FailPrefix  int
+	OpenName    string // the name the handle was opened under (os.File.Name does not follow renames)
 }
 
 // NewMemRWSC creates a model file with the given initial content and returns a handle at position 0.
@@ -39,6 +40,9 @@ func (m *MemRWSC) Size() int { return len(m.F.Data) }
 var ErrModelIO = errors.New("model file: injected I/O error")
 
 func (m *MemRWSC) Read(p []byte) (int, error) {
+	if err := fsStep("read", m.F.Name); err != nil {
+		return 0, err
+	}
 	if m.Pos >= len(m.F.Data) {
 		if len(p) == 0 {
 			return 0, nil
@@ -51,6 +55,22 @@ func (m *MemRWSC) Read(p []byte) (int, error) {
 }
 
 func (m *MemRWSC) Write(p []byte) (int, error) {
+	if err := fsStep("write", m.F.Name); err != nil {
+		return 0, err
+	}
+	if FSPartial && fsCrashArmed && len(p) > 1 && Bool() {
+		// killed in the middle of this write: a proper prefix reaches the file
+		var n int
+		if len(p) <= 16 {
+			n = Concretize(IntIn(1, len(p)-1))
+		} else {
+			n = Concretize(OneOf(1, 8, len(p)/2, len(p)-1)) // long buffers: representative cut points
+		}
+		m.put(p[:n])
+		fsCrashArmed, fsDead = false, true
+		FSLog = append(FSLog, "KILLED inside write")
+		panic(Crash{})
+	}
 	idx := m.Writes
 	m.Writes++
 	w := p
@@ -61,6 +81,11 @@ func (m *MemRWSC) Write(p []byte) (int, error) {
 		}
 		err = ErrModelIO
 	}
+	m.put(w)
+	return len(w), err
+}
+
+func (m *MemRWSC) put(w []byte) {
 	// extend the file with zeros up to Pos if needed (sparse write), then overwrite / append
 	if len(m.F.Data) < m.Pos {
 		m.F.Data = append(m.F.Data, make([]byte, m.Pos-len(m.F.Data))...)
@@ -70,7 +95,6 @@ func (m *MemRWSC) Write(p []byte) (int, error) {
 		m.F.Data = append(m.F.Data, w[k:]...)
 	}
 	m.Pos += len(w)
-	return len(w), err
 }
 
 func (m *MemRWSC) Seek(offset int64, whence int) (int64, error) {
@@ -93,6 +117,9 @@ func (m *MemRWSC) Seek(offset int64, whence int) (int64, error) {
 }
 
 func (m *MemRWSC) Close() error {
+	if err := fsStep("close", m.F.Name); err != nil {
+		return err
+	}
 	m.Closed = true
 	return nil
 }
@@ -101,7 +128,7 @@ func (m *MemRWSC) Stat() (fs.FileInfo, error) {
 	return memInfo{size: int64(len(m.F.Data)), name: m.F.Name}, nil
 }
 
-func (m *MemRWSC) Name() string { return m.F.Name }
+func (m *MemRWSC) Name() string { return m.OpenName }
 
 type memInfo struct {
 	size int64
@@ -120,7 +147,10 @@ func (s memInfo) Sys() any           { return nil }
 var files map[string]*FileData
 
 // ResetFS empties the model file system.
-func ResetFS() { files = map[string]*FileData{} }
+func ResetFS() {
+	files = map[string]*FileData{}
+	dirs, hier, fsCrashArmed, fsFaultArmed, fsDead, FSYield = nil, false, false, false, false, nil
+}
 
 // PutFile creates (or replaces) a file with the given content.
 func PutFile(name string, content []byte) {
@@ -150,9 +180,12 @@ func OpenFile(name string, flag int, perm fs.FileMode) (*MemRWSC, error) {
 	if files == nil {
 		files = map[string]*FileData{}
 	}
+	if err := fsStep("open", name); err != nil {
+		return nil, err
+	}
 	f, ok := files[name]
 	if !ok {
-		if flag&oCREATE == 0 {
+		if flag&oCREATE == 0 || (hier && !dirs[parentOf(name)]) {
 			return nil, &fs.PathError{Op: "open", Path: name, Err: fs.ErrNotExist}
 		}
 		f = &FileData{Name: name}
@@ -161,5 +194,5 @@ func OpenFile(name string, flag int, perm fs.FileMode) (*MemRWSC, error) {
 	if flag&oTRUNC != 0 {
 		f.Data = nil
 	}
-	return &MemRWSC{F: f, FailWriteAt: -1}, nil
+	return &MemRWSC{F: f, FailWriteAt: -1, OpenName: name}, nil
 }
